@@ -33,3 +33,16 @@ for c in R.values():
                         for h in ob.hyps[-int(os.environ["HYPS"]):]:
                             print("  H:", str(h)[:400].replace("\n", " "))
                         print("  G:", str(ob.goal)[:800])
+        if os.environ.get("DUMP"):
+            from pyvc import smt as _smt
+            os.makedirs(os.environ["DUMP"], exist_ok=True)
+            byname = {}
+            for ob in v.obligs:
+                byname.setdefault(ob.name, []).append(ob)
+            for name, rs in res.items():
+                obs = [o for o in byname[name] if not __import__("z3").is_true(__import__("z3").simplify(o.goal))]
+                for k, (ob, r) in enumerate(zip(obs, rs)):
+                    if r["verdict"] != "unsat":
+                        fn = os.path.join(os.environ["DUMP"], name.replace("/", "_") + f"_{k}.smt2")
+                        open(fn, "w").write(_smt.to_smt2(ob.hyps, ob.goal))
+                        print("dumped", fn)
